@@ -125,6 +125,29 @@ def probe_source(fset, model):
     return "\n".join(lines) + "\n", n_items, n
 
 
+def client_source(model):
+    """A client crate that has its OWN items named like every predefined quantity type and every predefined unit
+    constant, and glob-imports the prelude (at module level next to its own glob, and inside a function).  What the
+    names denote in client code must not depend on which features of the library are enabled: on the pinned tree the
+    prelude exports none of them, so the client means its own items in every configuration."""
+    main = [t for t in model["types"] if t["universe"] == "main"]
+    own = ["    pub struct Marker;"]
+    uses = []
+    for t in main:
+        own.append("    pub struct %s;" % t["name"])
+        own.append("    pub struct %sUnit;" % t["name"])
+        uses.append("    let _: own::%s = %s;" % (t["name"], t["name"]))
+        uses.append("    let _: own::%sUnit = %sUnit;" % (t["name"], t["name"]))
+        for u in t["units"]:
+            own.append("    pub const %s: Marker = Marker;" % u["const"])
+            uses.append("    let _: own::Marker = %s;" % u["const"])
+    lines = ["#![allow(unused, non_upper_case_globals, ambiguous_glob_imports)]", "mod own {"] + sorted(set(own)) + ["}", "mod two_globs {",
+             "    use super::own; use super::own::*;", "    use quantities::prelude::*;", "    pub fn f() {"] + ["    " + x for x in uses] + ["    }", "}",
+             "mod local_glob {", "    use super::own; use super::own::*;", "    pub fn f() {", "        use quantities::prelude::*;"] + ["    " + x for x in uses] + ["    }", "}",
+             "fn main() { two_globs::f(); local_glob::f(); }"]
+    return "\n".join(lines) + "\n", len(uses)
+
+
 def rustc_probe(src_text, rlib, deps, workdir, name, as_bin=False, cfgs=()):
     os.makedirs(workdir, exist_ok=True)
     src = os.path.join(workdir, name + ".rs")
@@ -331,6 +354,8 @@ def run(prop, tier, seed, t0):
              "corpus_identical": 0, "closed_sets": len({s for s, _ in configs})}
     samples = []
 
+    client_src, n_client_names = client_source(model)
+
     def work(v):
         out = []
         for s in by_variant[v]:
@@ -340,6 +365,8 @@ def run(prop, tier, seed, t0):
                 src, n_items, n_ops = probe_source(s, model)
                 pok, plog = rustc_probe(src, rlib, deps, os.path.join(BUILD, "gen", "c19-" + vname(v)), "probe")
                 rec.update({"probe": pok, "probe_log": plog, "n_items": n_items, "n_ops": n_ops})
+                cok, clog = rustc_probe(client_src, rlib, deps, os.path.join(BUILD, "gen", "c19-" + vname(v)), "client")
+                rec.update({"client": cok, "client_log": clog})
             out.append(rec)
         return out
 
@@ -357,6 +384,13 @@ def run(prop, tier, seed, t0):
                 else:
                     violation("C19/not-self-contained/%s" % "+".join(r["set"] or ["none"]), {"features": r["set"], "variant": r["variant"]},
                               "exposure probe does not compile: " + r["probe_log"][-400:], "the quantity, its unit constants and its derivation operators are exposed", r["cmd"])
+                if r.get("client"):
+                    stats["client_probes_ok"] = stats.get("client_probes_ok", 0) + 1
+                    stats["client_names"] = n_client_names
+                else:
+                    violation("C19/prelude-names-depend-on-features/%s" % "+".join(r["set"] or ["none"]), {"features": r["set"], "variant": r["variant"]},
+                              "a client with its own items named like the predefined types / unit constants no longer compiles next to `use quantities::prelude::*`: " + r.get("client_log", "")[-400:],
+                              "client code means the same in every configuration (the prelude exports none of these names)", r["cmd"])
             else:
                 violation("C19/does-not-build/%s" % "+".join(r["set"] or ["none"]), {"features": r["set"], "variant": r["variant"]},
                           r["log"][-500:], "the crate compiles", r["cmd"])
